@@ -39,16 +39,17 @@ var c10Weights = core.OpWeights{
 
 func genC10(t *rapid.T, tier string) C10Case {
 	c := C10Case{Cfg: core.GenConfig(t, tier, core.GenOpts{
-		Vals:   []string{core.VInt, core.VString},
-		Caches: []string{"none", "none", "big", "arc4"},
+		Vals:     []string{core.VInt, core.VString},
+		Caches:   []string{"none", "none", "big", "arc4"},
+		BigOneIn: 20,
 	})}
 	pool := len(c.Cfg.Pool())
-	c.Fill = core.GenFill(t, pool, pool)
+	c.Fill = core.GenFillCfg(t, c.Cfg, pool)
 	maxOps := 30
 	if tier == "thorough" {
 		maxOps = 60
 	}
-	c.Prog = core.GenProgram(t, c10Weights, maxOps, 1)
+	c.Prog = core.GenProgram(t, core.WithBulk(c10Weights, c.Cfg), maxOps, 1)
 	c.Residency = rapid.SampledFrom([]string{"memory", "persisted", "reloaded"}).Draw(t, "residency")
 	nw := rapid.IntRange(1, 5).Draw(t, "nwalks")
 	for i := 0; i < nw; i++ {
@@ -57,7 +58,11 @@ func genC10(t *rapid.T, tier string) C10Case {
 			w.Probe = rapid.IntRange(0, pool-1).Draw(t, "probe")
 		}
 		style := rapid.IntRange(0, 3).Draw(t, "style")
-		n := rapid.IntRange(0, 2*pool+3).Draw(t, "nsteps")
+		maxSteps := 2*pool + 3
+		if c.Cfg.IsBig() && style >= 2 {
+			maxSteps = 160 // every step of a mixed walk is a generated choice
+		}
+		n := rapid.IntRange(0, maxSteps).Draw(t, "nsteps")
 		b := make([]byte, n)
 		for j := range b {
 			switch style {
@@ -119,28 +124,36 @@ func runC10(c C10Case, o *run.Obs) error {
 		}
 		return size
 	}
-	expectAt := func(cur *mast.Cursor, idx int, what string) error {
+	expectAtLazy := func(cur *mast.Cursor, idx int, whatf func() string) error {
+		what := ""
 		var k, v interface{}
 		var ok bool
 		if err := core.Safely("Cursor.Get", func() error { k, v, ok = cur.Get(); return nil }); err != nil {
-			return fmt.Errorf("%s: %w", what, err)
+			return fmt.Errorf("%s: %w", whatf(), err)
 		}
 		if idx < 0 || idx >= size {
 			if ok {
+				what = whatf()
 				return fmt.Errorf("%s: cursor reports entry %v but the position is off the end (index %d of %d keys)", what, k, idx, size)
 			}
 			return nil
 		}
 		if !ok {
+			what = whatf()
 			return fmt.Errorf("%s: cursor reports no entry, expected key %v (index %d of %d)", what, w.Pool[keys[idx]], idx, size)
 		}
 		if w.Cfg.RefCompare(k, w.Pool[keys[idx]]) != 0 {
+			what = whatf()
 			return fmt.Errorf("%s: cursor is at key %v, expected %v (index %d of %d; keys %s)", what, k, w.Pool[keys[idx]], idx, size, w.DescribeModel(t.Model))
 		}
 		if !core.EqualVal(v, w.Cfg.MakeVal(t.Model[keys[idx]])) {
+			what = whatf()
 			return fmt.Errorf("%s: cursor at key %v reports value %#v, expected %#v", what, k, v, w.Cfg.MakeVal(t.Model[keys[idx]]))
 		}
 		return nil
+	}
+	expectAt := func(cur *mast.Cursor, idx int, what string) error {
+		return expectAtLazy(cur, idx, func() string { return what })
 	}
 	height := t.M.Height()
 	interesting := false
@@ -178,7 +191,10 @@ func runC10(c C10Case, o *run.Obs) error {
 		}
 		turns := 0
 		for si := 0; si < len(wk.Steps); si++ {
-			if idx < 0 || idx >= size {
+			if size == 0 {
+				// an empty tree: every call must return without panicking and there is never an entry
+				idx = -1 - si // stays off the end whatever the step does
+			} else if idx < 0 || idx >= size {
 				break // stepped off an end: later behaviour is not specified
 			}
 			st := wk.Steps[si]
@@ -193,11 +209,13 @@ func runC10(c C10Case, o *run.Obs) error {
 				err = core.Safely("Cursor.Backward", func() error { return cur.Backward(core.Ctx) })
 				idx--
 			}
-			desc := fmt.Sprintf("[%s] walk %d (%s, tree %s, height %d) %s then steps %q", c.Cfg, wi, c.Residency, w.DescribeModel(t.Model), height, what, wk.Steps[:si+1])
-			if err != nil {
-				return fmt.Errorf("%s: step failed: %w", desc, err)
+			desc := func() string {
+				return fmt.Sprintf("[%s] walk %d (%s, tree %s, height %d) %s then steps %q", c.Cfg, wi, c.Residency, w.DescribeModel(t.Model), height, what, wk.Steps[:si+1])
 			}
-			if err := expectAt(cur, idx, desc); err != nil {
+			if err != nil {
+				return fmt.Errorf("%s: step failed: %w", desc(), err)
+			}
+			if err := expectAtLazy(cur, idx, desc); err != nil {
 				return err
 			}
 		}
